@@ -38,7 +38,7 @@ RULE = ("multi-line programs (one sub-form per line, random blank lines and host
         "comments and a string literal; only LF ends a line). "
         "Non-trivial = raiser under a function/class/comprehension/macro host or the compiled AST hoists a "
         "statement (a _hy_ temporary); distinct by program text.")
-FLOOR = {"quick": 1000, "thorough": 5000}
+FLOOR = {"quick": 500, "thorough": 5000}
 BUDGET = {"quick": 32, "thorough": 480}
 CASE_TIMEOUT = 20
 NEEDS_EVENTS = True
@@ -48,7 +48,7 @@ ASSUMPTIONS = [
     "CPython 3.12 sets tb_lineno from the start line of the instruction that raised, and that instruction "
     "carries the position of the AST node Hy built for the raiser form or one of its sub-forms",
     "the raiser is the first thing that fails: host fillers never raise (programs that raise something else, "
-    "or nothing, are outside the quantifier and are counted as skipped; more than 2% of them is inconclusive)",
+    "or nothing, are outside the quantifier and are counted as skipped; more than 5% of them is inconclusive; each is tagged skip:<reason>)",
     "a form produced by a user macro's quasiquoted template has no source text of its own: its span is the "
     "macro call's (DESIGN C17)",
 ]
@@ -900,7 +900,7 @@ def observe(text, fn):
         try:
             tree = hy_compile(read_many(text, filename=fn), m, filename=fn, source=text)
             out["hoisted"] = _hoisted(tree)
-            code = compile(tree, fn, "exec")
+            code = compile(tree, fn, "exec", optimize=0)    # keep `assert` whatever PYTHONOPTIMIZE says
         except BaseException as e:
             if type(e).__name__ == "CaseTimeout":
                 raise
@@ -925,6 +925,15 @@ def observe(text, fn):
 
 
 def run_case(case):
+    import warnings
+    with warnings.catch_warnings():
+        # an inherited -W error / PYTHONWARNINGS must not turn CPython's SyntaxWarnings
+        # ("'int' object is not callable") into compile errors
+        warnings.simplefilter("ignore")
+        return _run_case(case)
+
+
+def _run_case(case):
     import hy
     from hy.reader import read_many
     text = case["text"]
@@ -977,7 +986,7 @@ def run_case(case):
         k = "skip:compile-error" if ob["phase"] == "compile" else "skip:no-exception"
         _bump(k)
         _bump(k + ":" + "+".join(case["chain"]) + "/" + case["raiser"])
-        res.update(ok=None, classes=classes + [k])
+        res.update(ok=None, classes=classes + [k] + ([k + ":" + type(exc).__name__] if exc is not None else []))
         res["why"] = f"{k}: {exc!r}"
         return res
     tname = type(exc).__name__
@@ -986,7 +995,7 @@ def run_case(case):
     if tname != case["exc"] or (case["token"] and case["token"] not in str(exc)):
         _bump("skip:other-exception")
         _bump("skip:other-exception:" + "+".join(case["chain"]) + "/" + case["raiser"])
-        res.update(ok=None, classes=classes + ["skip:other-exception"])
+        res.update(ok=None, classes=classes + ["skip:other-exception", "skip:other-exception:" + tname])
         res["why"] = f"expected {case['exc']}({case['token']}), got {tname}: {exc}"
         return res
     res["events"] = ob["nframes"]
@@ -1026,7 +1035,7 @@ def gate(tot, classes, extra, tier):
     skipped = sum(v for k, v in c.items() if k.startswith("skip:") and k.count(":") == 1)
     if c.get("skip:layout-unvalidated"):
         return f"layout-span-not-validated-on-{c['skip:layout-unvalidated']}-programs"
-    if seen and skipped > 0.02 * (seen + skipped):
+    if seen and skipped > 0.05 * (seen + skipped):
         return f"premise-failed-on-{skipped}-of-{seen + skipped}-programs"
     for need in ("tag:comp-native", "tag:comp-fn", "tag:macro-arg", "tag:macro-tmpl", "tag:fstr", "tag:match",
                  "tag:kwarg", "tag:class", "tag:fn", "tag:core", "raiser-multiline", "eol:lf", "eol:crlf",
